@@ -5,7 +5,7 @@ import os
 from .model import AnalysisError
 from .report import VERIF
 from .callgraph import closure
-from .rules import r1_resolve, r2_none, r3_ctor, r9_purity, r4_predicates, r5_arghandler, r6_dispatch, r7_binary, r8_accessors, r_list, r10_args
+from .rules import r1_resolve, r2_none, r3_ctor, r9_purity, r4_predicates, r5_arghandler, r6_dispatch, r7_binary, r8_accessors, r_list, r10_args, r11_symbolic
 
 _anch = None
 
@@ -304,3 +304,41 @@ def c15(run):
 
 
 CHECKS['C15'] = c15
+
+
+def c_dev11(run):
+    from .rules import r11_symbolic
+    r11_symbolic.run_r11(run)
+    r11_symbolic.check_getvector_dtype(run)
+    r11_symbolic.check_allocations(run)
+    run.explanation = 'dev R11'
+
+
+CHECKS['DEV11'] = c_dev11
+
+
+def c16(run):
+    prog = run.prog
+    r11_symbolic.run_r11(run)
+    r11_symbolic.check_getvector_dtype(run)
+    r11_symbolic.check_allocations(run)
+    ms = r11_symbolic.marked(prog)
+    r1_resolve.run_r1(run, closure(ms, depth=1 if run.tier == 'quick' else None, prog=prog))
+    run.floor('R11', 40)
+    run.floor('R11d', 4)
+    run.floor('R11a', 8)
+    run.explanation = ('R11: for each of the functions/methods carrying ":SymPy: supported" (read from the docstrings on '
+                       'every run), arguments are tainted with their documented kind (scalar / array) and followed through '
+                       'the base functions they call (summaries to a fixpoint); a violation is a tainted value reaching a '
+                       'numeric-only primitive -- math.*, float(), np.linalg.*, scipy.linalg.*, np.isscalar on a symbolic '
+                       'scalar, or an ordering comparison used as a truth value -- without a dominating symbolic guard '
+                       '(issymbol / sympy.Expr / dtype object test); sinks reached only under a check parameter are '
+                       'conditional on it. R11c: marked class methods construct their (possibly symbolic) result with '
+                       'check=False when the class validity predicate is numeric. R11a: arrays that receive '
+                       'argument-derived values are allocated with the argument dtype (or only in the numeric branch). '
+                       'R11d: the vector normaliser selects its conversion dtype under a symbol test in each container '
+                       'branch. Value agreement after substitution needs execution and is not decided.')
+    run.trust(*STATIC_TRUST)
+
+
+CHECKS['C16'] = c16
